@@ -28,6 +28,13 @@ CLAIMED = {
  "C17": dict(level="proof", technique="static analysis: interval+zone abstract interpretation with an inductive field invariant (length <= len(buffer)) proved over all writers, per-path counters, table extraction and sibling-decoder comparison over rustc MIR",
    text="Every bounds/slice/overflow obligation of ExtDiagBlockIter::next, raw_diag_buffer and fill is discharged for every buffer content under the proven invariant; every yielded block advances the cursor by >= 1 and None is terminal; block-kind / length-mask / channel-field / data-type / error tables match DP-V0; the peripheral's and the scanner's 6-byte header decoders extract identical fields with identical guards and keep every flag bit; fill copies only what fits.",
    note="Trusted: " + TB + "; numdom transfer functions; ManagedSlice Deref length stability; rules/spec_tables.json.", ref="§4-C17"),
+
+ "C16": dict(level="other", technique="static analysis: drop-count table extraction per decoder verdict (path-sensitive facts on discriminants), loop-condition and dependency checks, zone-domain obligations of the decoder, PHY read-position dependency over rustc MIR",
+   text="Decides the structural clauses behind chunking independence: per decoder verdict the provided receive helpers drop 0 / everything / exactly the decoded length and deliver the telegram exactly once; is_last is exactly (length == buffered); receive_all_telegrams loops iff not last and returns the final result; decoder verdict clauses shared with C10; the simulator and serial PHYs advance their read position by exactly the returned count. The end-to-end relation over all chunkings follows on paper from these clauses and is not re-proved.",
+   note="Trusted: " + TB + ".", ref="§4-C16"),
+ "C18": dict(level="other", technique="static analysis: inductive interval invariant (cursor in 0..=125) proved by the zone domain over all writers, per-path counters for event/bitset and sweep-flag pairing, FDL admission guards over rustc MIR",
+   text="Decides: only addresses 0..=125 are ever probed (inductive invariant of the sweep cursor over every writer, probe destination = cursor, source = own address); Lost only for known addresses together with clearing the bit, Discovered/Found only for unknown addresses together with setting it (the DP scanner adds an address only with a Found event); one probe per address per sweep (done-flag pairing); replies admitted only from the probed address. Convergence over whole histories is not decided.",
+   note="Trusted: " + TB + "; bitvec get/set semantics; numdom transfer functions.", ref="§4-C18"),
 }
 
 NA = {
